@@ -13,7 +13,7 @@ import { allRefs, resolvePointer } from "../lib/schemadocs.mjs";
 import { CONFIGS, assembleRoot } from "./C02.mjs";
 import { compileText } from "../lib/util.mjs";
 
-export const FEATURES = { nonJson: false, maxDepth: 3, cycleHeavy: true, onlyRepresentableNumbers: true };
+export const FEATURES = { nonJson: false, maxDepth: 3, cycleHeavy: true, onlyRepresentableNumbers: true, jsdocRate: 0.3 };
 
 const stable = (v) => JSON.stringify(v, (k, x) => (x && typeof x === "object" && !Array.isArray(x) ? Object.fromEntries(Object.entries(x).sort(([a], [b]) => (a < b ? -1 : a > b ? 1 : 0))) : x));
 
@@ -132,6 +132,13 @@ const PROBES = [
     id: "recursive-discriminated-cycle",
     text: 'type Expr = { kind: "lit" } | { kind: "block"; holder: Holder };\ntype Holder = { e: Expr; label?: string };\ntype Page = { items: Holder[] };\nexport const Parsers = parse.buildParsers<{ PE: Expr; PH: Holder; PP: Page }>();\n',
     set: ["PE", "PH", "PP"],
+    override: null,
+  },
+  {
+    // one undocumented named type reached through differently documented references
+    id: "documented-references-to-one-type",
+    text: 'type Money = { amount: number; currency: string };\ntype Tree = { v: Money; kids: Tree[] };\ntype Invoice = { /** Price of the item. */ price: Money };\ntype Refund = { /** Amount paid back. */ refund: Money; t?: Tree };\ntype Total = { total: Money };\nexport const Parsers = parse.buildParsers<{ PI: Invoice; PR: Refund; PT: Total }>();\n',
+    set: ["PI", "PR", "PT"],
     override: null,
   },
 ];
